@@ -700,6 +700,19 @@ fn ord_cmp_same(x: &AnyBv, y: &AnyBv) -> Out {
     same!(F8x1, F8x2, F8x3, F8x4, F16x1, F16x4, F32x1, F32x4, F64x1, F64x2, F64x4, F128x1, F128x4, Fux1, Fux4, D, A)
 }
 
+/// Clone::clone_from within one type (may reuse the destination's storage)
+fn clone_from_same(x: &mut AnyBv, y: &AnyBv) -> Out {
+    macro_rules! same {
+        ($($K:ident),+) => {
+            match (x, y) {
+                $( (AnyBv::$K(a), AnyBv::$K(b)) => { a.clone_from(b); Out::Unit } )+
+                _ => panic!("harness: clone_from needs operands of one type"),
+            }
+        };
+    }
+    same!(F8x1, F8x2, F8x3, F8x4, F16x1, F16x4, F32x1, F32x4, F64x1, F64x2, F64x4, F128x1, F128x4, Fux1, Fux4, D, A)
+}
+
 /// HashSet membership within one type: a set holding x is asked for y
 fn hs_contains_same(x: &AnyBv, y: &AnyBv) -> Out {
     macro_rules! same {
@@ -747,6 +760,9 @@ fn exec_inner(x: &mut AnyBv, y: &Y, op: &str, f: &str, a: &Args) -> Out {
             }
             if op == "hs_contains" {
                 return hs_contains_same(x, yv);
+            }
+            if op == "clone_from" {
+                return clone_from_same(x, yv);
             }
             with_any!(x, xv => with_any!(yv, yy => pair(xv, yy, op, f, a)))
         }
